@@ -114,6 +114,11 @@ def rule_d(ck, F):
         ('chroma b', cbp((cidx['codes_chroma_b'],)), 'chroma_b_levels', (N.op('Div', ox, ('c', 2)), N.op('Div', oy, ('c', 2))), mbpl),
         ('chroma r', cbp((cidx['codes_chroma_r'],)), 'chroma_r_levels', (N.op('Div', ox, ('c', 2)), N.op('Div', oy, ('c', 2))), mbpl),
     ]
+    st_fields = [f['name'] for f in F.adts['h263_rs::decoder::state::H263State']['variants'][0]['fields']]
+    self_up = [int(k) for k, v in (b.get('upvars') or {}).items() if v == 'self']
+    if len(self_up) != 1 or 'decoder_options' not in st_fields:
+        ck.violation('D', 'D : decode_next_picture : self', where_of(b), 'the captured self / H263State::decoder_options were not found (upvars %s, fields %s)' % (b.get('upvars'), st_fields)); return
+    dec_opts = ('fld', ('v', 'arg1'), (self_up[0], st_fields.index('decoder_options')))
     order = sorted(range(6), key=lambda i: T.order[rle[i][0]])
     dbo = sorted(range(6), key=lambda i: T.order[db[i][0]])
     q = None
@@ -121,6 +126,15 @@ def rule_d(ck, F):
         rb, rt, ra = rle[order[j]]; dbb, dt, da = db[dbo[j]]
         probs = []
         if da[-1] != code: probs.append('decode_block is given %s, expected the coded-block flag %s' % (show(da[-1]), show(code)))
+        # what else decode_block is told: the decoder's options (Sorenson escape forms), the header of the picture being decoded (its version),
+        # and this macroblock's type (INTRADC present iff intra)
+        # (the option set it is also given only selects between two error kinds for an invalid level - MB.T - and is not constrained here)
+        want_args = [('decoder options', dec_opts), ('picture header', ('f', 'as_header', ('v', 'next_decoded_picture'))), None,
+                     ('macroblock type', ('fld', dmb[1], dmb[2] + (fidx['mb_type'],)))]
+        if len(da) != 6: probs.append('decode_block takes %d arguments, the rule was written for 6' % len(da))
+        else:
+            for wa, got_ in zip(want_args, da[1:5]):
+                if wa is not None and got_ != wa[1]: probs.append('decode_block is given %s as its %s, expected %s' % (show(got_), wa[0], show(wa[1])))
         if ra[0] != ('f', 'try', ('f', 'decode_block') + tuple(da)): probs.append('inverse_rle does not receive the block just decoded')
         if show(ra[1]) != arr: probs.append('levels go to %s, expected %s' % (show(ra[1]), arr))
         if ra[2] != ('agg', 'tuple') + pos: probs.append('position %s, expected (%s, %s)' % (show(ra[2]), show(pos[0]), show(pos[1])))
@@ -193,7 +207,16 @@ def rule_d(ck, F):
     dq = ('f', 'unwrap_or', ('fld', dmb[1], dmb[2] + (fidx['d_quantizer'],)), ('c', 0))
     upd = ('f', 'clamp', mk_add([('f', 'as_i8', ('v', 'in_force_quantizer')), dq]), ('c', 1), ('c', 31))      # the final `as u8` of a value clamped to 1..31 is value preserving and normalised away
     good = [bb for bb, v in inl if v == upd]
-    other = [(bb, show(v)) for bb, v in inl if v != upd and show(v) != show(('fld', ('v', 'quantizer'), ())) and not show(v).startswith('decode_gob')]
+    # the only other in-loop definition: GQUANT of a group-of-blocks header the loop resynchronised to (5.2.5: GQUANT is the quantizer until updated by DQUANT)
+    gobf = [f['name'] for f in F.adts['h263_rs::types::GroupOfBlocks']['variants'][0]['fields']]
+    gq = [bb for bb, v in inl if v != upd and v[0] == 'fld' and v[1][0] == 'f' and v[1][1] == 'decode_gob' and tuple(v[2]) == (('as', 0), 0, ('as', 1), 0, gobf.index('quantizer'))]
+    other = [(bb, show(v)) for bb, v in inl if v != upd and bb not in gq]
+    # (decode_gob is a stub that never returns a header - rule C15.RS reads its returns - so that arm is unreachable today and is not required to exist)
+    if other or len(gq) > 1:
+        ck.violation('H', 'H : decode_next_picture : GQUANT', where_of(b), 'besides the DQUANT update, in_force_quantizer may only be set to the quantizer of a group-of-blocks '
+                     'header just parsed (decode_gob(..) = Ok(Some(gob)) => gob.quantizer); found %s' % ([(bb, show(v)) for bb, v in inl if v != upd]))
+    else:
+        ck.ok('H', 'no other in-loop definition of in_force_quantizer%s' % (' than GQUANT after a group-of-blocks header' if gq else ''), where_of(b, gq[0] if gq else None))
     if len(good) == 1 and all(g.dominates(good[0], rb) for rb, _, _ in rle) and all(g.dominates(good[0], x[0]) for x in db):
         ck.ok('H', 'in_force_quantizer := clamp(in_force_quantizer as i8 + d_quantizer.unwrap_or(0), 1, 31) as u8 dominates the six decode_block / inverse_rle pairs', where_of(b, good[0]))
     else:
